@@ -169,32 +169,35 @@ func c15(c *Ctx) {
 
 func c15HKDF(c *Ctx) {
 	p, r := c.P, c.R
-	v := p.PkgFunc("subtle", "validateHKDFParamsAndGetHashSize")
 	h := p.PkgFunc("subtle", "ComputeHKDF")
-	if v == nil || h == nil {
-		r.AnchorMissing("C15.hkdf", "subtle.validateHKDFParamsAndGetHashSize / ComputeHKDF")
+	if h == nil || len(h.Params) != 5 {
+		r.AnchorMissing("C15.hkdf", "subtle.ComputeHKDF(hashAlg, key, salt, info, tagSize)")
 		return
 	}
+	// the output-length limits, folded through ComputeHKDF itself (and whatever
+	// validator it calls): a length outside [10, 255*HashLen] fails on every path
 	ev := consteval.New()
 	digest := map[string]int64{"SHA1": 20, "SHA224": 28, "SHA256": 32, "SHA384": 48, "SHA512": 64}
+	ref := consteval.Val{K: consteval.Ref}
 	for _, hn := range []string{"SHA1", "SHA224", "SHA256", "SHA384", "SHA512"} {
 		d := digest[hn]
 		for _, cs := range []struct {
 			tag int64
 			ok  bool
 		}{{9, false}, {10, true}, {d, true}, {255 * d, true}, {255*d + 1, false}} {
-			outs, ok := ev.Eval(v, []consteval.Val{consteval.S(hn), consteval.C(32), consteval.C(cs.tag)}, nil)
+			outs, ok := ev.Eval(h, []consteval.Val{consteval.S(hn), ref, ref, ref, consteval.C(cs.tag)}, nil)
 			key := fmt.Sprintf("C15.hkdf/validate/%s tag=%d", hn, cs.tag)
-			if !ok || len(outs) != 1 || (!outs[0].IsOK() && !outs[0].IsErr()) {
-				r.Unknown("C15.hkdf", key, p.FuncPos(v), "cannot fold")
+			if !ok || len(outs) == 0 {
+				r.Unknown("C15.hkdf", key, p.FuncPos(h), "cannot fold")
 				continue
 			}
-			good := outs[0].IsOK() == cs.ok
-			if cs.ok && good {
-				// returns the digest size
-				good = outs[0].Results[0].K == consteval.Const && outs[0].Results[0].C.ExactString() == fmt.Sprint(d)
+			accepts := false
+			for _, o := range outs {
+				if !o.IsErr() && !guard.DefinitelyFails(o.Ret) {
+					accepts = true
+				}
 			}
-			r.Check(good, "C15.hkdf", key, p.FuncPos(v), fmt.Sprintf("validator accepts=%v (digest %v), want accepts=%v with digest size %d (RFC 5869: L <= 255*HashLen)", outs[0].IsOK(), outs[0].Results[0], cs.ok, d), fmt.Sprintf("accepts=%v", cs.ok))
+			r.Check(accepts == cs.ok, "C15.hkdf", key, p.FuncPos(h), fmt.Sprintf("ComputeHKDF(%s, …, tagSize=%d) can succeed=%v, want %v (RFC 5869: L <= 255*HashLen; minimum 10)", hn, cs.tag, accepts, cs.ok), fmt.Sprintf("accepts=%v", cs.ok))
 		}
 	}
 	// empty salt -> digest-size zero bytes
@@ -220,8 +223,20 @@ func c15HKDF(c *Ctx) {
 			if ln == nil {
 				continue
 			}
-			vc, vi := guard.CallOf(ln)
-			if vc == nil || vi != 0 || vc.Call.StaticCallee() != v {
+			// its length is the digest size of the hash, whatever computes it
+			lenOK := true
+			for hn, d := range digest {
+				vals, ok := valuesAt(h, site, ln, consteval.Env{h.Params[0]: consteval.S(hn), h.Params[4]: consteval.C(d)})
+				if !ok {
+					lenOK = false
+				}
+				for _, lv := range vals {
+					if lv.K != consteval.Const || lv.C.ExactString() != fmt.Sprint(d) {
+						lenOK = false
+					}
+				}
+			}
+			if !lenOK {
 				continue
 			}
 			for _, fct := range edgeFactsInto(phi.Block().Preds[i], phi.Block()) {
